@@ -14,4 +14,44 @@ LEAVES = [
     # if length > 63      (length = len(remaining[0].encode('utf-8')))
     ("Name", "inst_too_long", "_utils/name.py", "service_type_name", ("if", "length >", 0),
      [P("length", "length")], "bool", {"nat": True}),
+    # ---- shape pins (rty "src"): statements that are hand-modelled in lean/Zc/Model/Name.lean and Txt.lean; GenFacts/Name.lean
+    # states the expected source text, so an edit (a `.lower()`, a different index, a dropped `or None`) breaks C19's proof stage
+    ("Name", "src_suffix_test", "_utils/name.py", "service_type_name", ("if", "type_.endswith((", 0), [], "src", {}),
+    ("Name", "src_local_test", "_utils/name.py", "service_type_name", ("if", "type_.endswith(_LOCAL_TRAILER)", 0), [], "src", {}),
+    ("Name", "src_with_service", "_utils/name.py", "service_type_name", ("if", "strict or has_protocol", 0), [], "src", {}),
+    ("Name", "src_no_service_name", "_utils/name.py", "service_type_name", ("if", "not service_name", 0), [], "src", {}),
+    ("Name", "src_leading_dot", "_utils/name.py", "service_type_name", ("if", "len(remaining) == 1", 0), [], "src", {}),
+    ("Name", "src_first_underscore", "_utils/name.py", "service_type_name", ("if", "service_name[0]", 0), [], "src", {}),
+    ("Name", "src_test_service_name", "_utils/name.py", "service_type_name", ("assign", "test_service_name", 0), [], "src", {}),
+    ("Name", "src_double_hyphen", "_utils/name.py", "service_type_name", ("if", "'--'", 0), [], "src", {}),
+    ("Name", "src_edge_hyphen", "_utils/name.py", "service_type_name", ("if", "test_service_name[-1]", 0), [], "src", {}),
+    ("Name", "src_letter_search", "_utils/name.py", "service_type_name", ("if", "_HAS_A_TO_Z.search", 0), [], "src", {}),
+    ("Name", "src_allowed_re", "_utils/name.py", "service_type_name", ("assign", "allowed_characters_re", 0), [], "src", {}),
+    ("Name", "src_chars_search", "_utils/name.py", "service_type_name", ("if", "allowed_characters_re.search", 0), [], "src", {}),
+    ("Name", "src_sub_test", "_utils/name.py", "service_type_name", ("if", "'_sub'", 0), [], "src", {}),
+    ("Name", "src_sub_empty", "_utils/name.py", "service_type_name", ("if", "len(remaining) == 0", 0), [], "src", {}),
+    ("Name", "src_join_test", "_utils/name.py", "service_type_name", ("if", "len(remaining) > 1", 0), [], "src", {}),
+    # the three assignments to `remaining` (ast.walk is breadth-first: the protocol split, the join, the bare-local split)
+    ("Name", "src_split_proto", "_utils/name.py", "service_type_name", ("assign", "remaining", 0), [], "src", {}),
+    ("Name", "src_join", "_utils/name.py", "service_type_name", ("assign", "remaining", 1), [], "src", {}),
+    ("Name", "src_split_local", "_utils/name.py", "service_type_name", ("assign", "remaining", 2), [], "src", {}),
+    ("Name", "src_trailer_proto", "_utils/name.py", "service_type_name", ("assign", "trailer", 0), [], "src", {}),
+    ("Name", "src_trailer_local", "_utils/name.py", "service_type_name", ("assign", "trailer", 1), [], "src", {}),
+    ("Name", "src_service_name_pop", "_utils/name.py", "service_type_name", ("assign", "service_name", 0), [], "src", {}),
+    ("Name", "src_result", "_utils/name.py", "service_type_name", ("last_ret",), [], "src", {}),
+    ("Name", "src_inst_length", "_utils/name.py", "service_type_name", ("assign", "length", 0), [], "src", {}),
+    ("Name", "src_ctrl_search", "_utils/name.py", "service_type_name", ("if", "_HAS_ASCII_CONTROL_CHARS.search", 0), [], "src", {}),
+    ("Name", "src_ctor_test", "_services/info.py", "ServiceInfo.__init__", ("if", "service_type_name(", 0), [], "src", {}),
+    ("Name", "src_txt_key_is_str", "_services/info.py", "ServiceInfo._set_properties", ("if", "isinstance(key, str)", 0), [], "src", {}),
+    ("Name", "src_txt_value_present", "_services/info.py", "ServiceInfo._set_properties", ("if", "value is not None", 0), [], "src", {}),
+    ("Name", "src_txt_value_not_bytes", "_services/info.py", "ServiceInfo._set_properties", ("if", "isinstance(value, bytes)", 0), [], "src", {}),
+    ("Name", "src_txt_value_coerce", "_services/info.py", "ServiceInfo._set_properties", ("assign", "value", 0), [], "src", {}),
+    ("Name", "src_txt_item", "_services/info.py", "ServiceInfo._set_properties", ("assign", "result", 1), [], "src", {}),
+    ("Name", "src_txt_alias_test", "_services/info.py", "ServiceInfo._set_properties", ("if", "properties_contain_str", 0), [], "src", {}),
+    ("Name", "src_txt_loop", "_services/info.py", "ServiceInfo._unpack_text_into_properties", ("if", "index < end", 0), [], "src", {}),
+    ("Name", "src_txt_slice", "_services/info.py", "ServiceInfo._unpack_text_into_properties", ("assign", "key_value", 0), [], "src", {}),
+    ("Name", "src_txt_partition", "_services/info.py", "ServiceInfo._unpack_text_into_properties", ("assign", "key_sep_value", 0), [], "src", {}),
+    ("Name", "src_txt_key", "_services/info.py", "ServiceInfo._unpack_text_into_properties", ("assign", "key", 0), [], "src", {}),
+    ("Name", "src_txt_first_wins", "_services/info.py", "ServiceInfo._unpack_text_into_properties", ("if", "key not in properties", 0), [], "src", {}),
+    ("Name", "src_txt_stored", "_services/info.py", "ServiceInfo._unpack_text_into_properties", ("assign", "properties[key]", 0), [], "src", {}),
 ]
